@@ -40,7 +40,7 @@ _corpus, _run, shrink, replay = make(
     [(lambda ctx, rng: solvers.ordered_case(ctx, rng, 4, 4, 3), 0.8),
      (lambda ctx, rng: solvers.ordered_case(ctx, rng, 3, 3, 4), 0.2)],
     lambda res, r: solvers.judge_optimal(res, r, ID),
-    quick=400, thorough=4000, corpus_cases=CORPUS, known_algos=["ext_spfs"],
+    quick=1200, thorough=6000, corpus_cases=CORPUS, known_algos=["ext_spfs"],
 )
 
 TRUSTED = TRUSTED + c02_code.TRUSTED
